@@ -14,9 +14,12 @@ ENGINE = {'name': 'msmall',
          'request-line gate, not x5 compositions) streams come from a per-protocol generator of abstract first messages over the full field '
          'ranges: well-formed messages with trailing data, one-field corruptions that keep the length fields consistent, truncated and '
          'length-inconsistent messages, random bytes; every prefix of every stream is evaluated in matching mode (twice on one connection, once '
-         'on a fresh one, socket reads counted, connection drained and compared, allocation measured); clock: 13 windows x 7 zones x boundary '
-         'and random instants; remote_ip/local_ip: 8 range sets x first/last/neighbour addresses of every range, random, mapped, zoned and '
-         'unparsable hosts. Correspondence cases are the whole stream, the neighbourhood of the first gate and both sides of every verdict '
+         'on a fresh one, socket reads counted, connection drained and compared, allocation measured); clock: 13 windows x 7 fixed-offset zones x boundary '
+         'and random instants, plus 7 daylight-saving zones (northern, southern, Local set to a DST zone) x instants in both halves of 2026 and within '
+         'the hour around every switch x windows whose edges lie half an hour around the local time, the reference and the model taking the offset '
+         'in force at the instant; remote_ip/local_ip/not{remote_ip}: 8 range sets x first/last/neighbour addresses of every range, random, mapped, '
+         'zoned and unparsable hosts as text addresses, and *net.TCPAddr / *net.UDPAddr values holding IPv4 in 16-byte and 4-byte form, IPv6 and '
+         'zoned addresses. Correspondence cases are the whole stream, the neighbourhood of the first gate and both sides of every verdict '
          'change. A case is non-trivial when the input reaches past the first magic/length gate of the matcher (clock: a proper window; ip: a '
          'parsable address); distinct = distinct (matcher, configuration, bytes, verdict) terms',
  'trusted_base': ['runtime.MemStats.TotalAlloc deltas are the measure of allocation; the scripted net.Conn counts Read calls',
@@ -32,7 +35,8 @@ ENGINE = {'name': 'msmall',
  'assumptions': ['regexp: the compiled pattern is a total function of the gated bytes (Section variable)',
                  'tls gate: the inner ClientHello matchers are a total function of the record body (Section variable)',
                  'remote_ip/local_ip: netip.ParseAddr is trusted to produce (family, 128/32-bit value, zone) of the textual address',
-                 'clock: zones are fixed offsets; the connection time is the value stored under l4.conn.wrap_time',
+                 'clock: the zone enters the model as the UTC offset in force at the instant of the connection (computed by the harness with '
+                 'time.Time.In on the embedded tzdata); the connection time is the value stored under l4.conn.wrap_time',
                  'http: verdicts after the request-line gate belong to net/http (the correspondence accepts Yes/More/error there)',
                  'xmpp: RFC 6120 stream headers whose namespace declaration starts after byte 44 are not recognised (recorded finding '
                  'C14:xmpp:rejects-valid-late-namespace)']}
